@@ -182,9 +182,18 @@ func handleExceptionSignal(vm *r.VM, blockModule *r.Module, catchBlock []*syntax
 	// try to find if the blockErr is an exception signal
 	exception, realErr := extractSignalValue(blockErr, zerr.SigTypeException)
 
-	// so, if the blockErr is not an exception signal, return it directly
+	// a runtime fault (e.g. division by zero) or a failing built-in / library function
+	// reported as a plain error is an exception of the default class “异常” as well;
+	// other errors (break / continue signals, syntax errors...) are returned directly
 	if realErr != nil {
-		return nil, realErr
+		switch v := realErr.(type) {
+		case *zerr.RuntimeError:
+			exception = value.NewException(v.Error())
+		case *value.Exception:
+			exception = v
+		default:
+			return nil, realErr
+		}
 	}
 
 	// by default, we use "异常" to match *value.Exception type exceptions
